@@ -3,7 +3,7 @@
 the full unedited suite passes with the patch. usage: confirm_mut.py <mutdir>...  (mutdir has patch.diff, demo_test.go|demo.go, meta.json)"""
 import json, os, re, shutil, subprocess, sys, time
 ENV = dict(os.environ, GOFLAGS="-mod=mod", GOPROXY="off", GOSUMDB="off", GOTOOLCHAIN="local")
-WT = "/tmp/mutconfirm_wt"
+WT = os.environ.get("CONFIRM_WT", "/tmp/mutconfirm_wt")
 
 def sh(cmd, cwd, timeout=1800):
     p = subprocess.run(cmd, shell=True, cwd=cwd, env=ENV, stdout=subprocess.PIPE, stderr=subprocess.STDOUT, text=True, timeout=timeout)
